@@ -21,6 +21,7 @@ type State struct {
 	defers []*deferRec
 	held  map[string]*Term // lock key -> Bool (held)
 	snap  map[string]*State // named snapshots (lock acquisition etc.)
+	owners map[string]PtrV  // owner object of each monitor lock taken
 }
 
 type deferRec struct {
@@ -46,6 +47,12 @@ func (s *State) clone() *State {
 	n.snap = make(map[string]*State, len(s.snap))
 	for k, v := range s.snap {
 		n.snap[k] = v
+	}
+	if s.owners != nil {
+		n.owners = make(map[string]PtrV, len(s.owners))
+		for k, v := range s.owners {
+			n.owners[k] = v
+		}
 	}
 	return n
 }
@@ -957,13 +964,24 @@ func (e *Engine) mergeStates(ga *Term, a *State, gb *Term, b *State) *State {
 		}
 		out.held[k] = c.Ite(g, va, vb)
 	}
+	out.owners = map[string]PtrV{}
+	for k, v := range b.owners {
+		out.owners[k] = v
+	}
+	for k, v := range a.owners {
+		out.owners[k] = v
+	}
 	out.snap = map[string]*State{}
 	for k, v := range a.snap {
 		out.snap[k] = v
 	}
 	for k, v := range b.snap {
-		if _, ok := out.snap[k]; !ok {
+		if av, ok := out.snap[k]; !ok {
 			out.snap[k] = v
+		} else if av != v {
+			// the two paths took their snapshots at different points: a two-state
+			// clause evaluated against either would be wrong for the other
+			out.snap[k] = nil
 		}
 	}
 	return out
